@@ -18,3 +18,5 @@ import RdfModel.Props.C11Md
 #print axioms RdfModel.C11Md.mdd_refines_denote_nested_partial
 #print axioms RdfModel.C11Md.mdd_reads_written_partial
 #print axioms RdfModel.C11Md.mdd_copy_cost_bound
+#print axioms RdfModel.C11Md.mdd_refines_denote_itemref_partial
+#print axioms RdfModel.C11Md.mdd_reads_written_itemref_partial
